@@ -6,6 +6,7 @@ import (
 	"github.com/bronlabs/bron-crypto/pkg/base"
 	"github.com/bronlabs/bron-crypto/pkg/base/algebra"
 	"github.com/bronlabs/bron-crypto/pkg/base/ct"
+	"github.com/bronlabs/bron-crypto/pkg/base/utils"
 )
 
 // Type represents the type of key agreement algorithm.
@@ -13,6 +14,9 @@ type Type string
 
 // NewPrivateKey creates a new PrivateKey instance.
 func NewPrivateKey[V algebra.UintLike[V]](v V, t Type) (*PrivateKey[V], error) {
+	if utils.IsNil(v) {
+		return nil, ErrInvalidKey.WithMessage("private key is nil")
+	}
 	if v.IsZero() {
 		return nil, ErrInvalidKey.WithMessage("private key is zero")
 	}
@@ -46,6 +50,9 @@ func (sk *PrivateKey[V]) Equal(other *PrivateKey[V]) bool {
 
 // NewPublicKey creates a new PublicKey instance.
 func NewPublicKey[V algebra.AbelianGroupElement[V, S], S algebra.UintLike[S]](v V, t Type) (*PublicKey[V, S], error) {
+	if utils.IsNil(v) {
+		return nil, ErrInvalidKey.WithMessage("public key is nil")
+	}
 	if v.IsOpIdentity() || !v.IsTorsionFree() {
 		return nil, ErrInvalidKey.WithMessage("public key is invalid: zero or not torsion free")
 	}
